@@ -413,7 +413,38 @@ def run_line_history(ctx, p):
     ctx.nontrivial('line_history', how, [float('%.9g' % v) for v in np.r_[P1, Q1, P2, Q2]])
 
 
-RUNNERS = {'line_history': run_line_history, 'line': run_line, 'transform': run_transform, 'pair': run_pair, 'plane': run_plane, 'pred': run_pred}
+def run_volume(ctx, p):
+    """a line through the inside of an axis-aligned box: intersect_volume returns the two piercing points, each on the line, on the
+    surface of the box, and each equal to point() of the parameter reported in the same position"""
+    sm = S()
+    P, d, b = np.asarray(p['P'], float), np.asarray(p['d'], float), np.asarray(p['bounds'], float)
+    sig = dict(api='Plucker.intersect_volume')
+    m = max(1.0, float(np.max(np.abs(b))), float(np.max(np.abs(P))))
+    try:
+        L = sm.Plucker.PointDir(P, d)
+        r = L.intersect_volume(b if p.get('form', 'array') == 'array' else b.tolist())
+        pts, lam = np.asarray(r.p, dtype=np.float64), np.asarray(r.lam, dtype=np.float64).reshape(-1)
+        back = np.asarray(L.point(lam), dtype=np.float64) if lam.size else np.zeros((3, 0))
+    except Exception as e:
+        ctx.bad('incidence', dict(sig, kind='raised', exc=type(e).__name__), 'intersect_volume(%s) of the line through %s along %s raised %r' % (b, P, d, e))
+        return
+    if pts.shape != (3, 2) or lam.shape != (2,):
+        ctx.bad('incidence', dict(sig, kind='count_or_shape'), 'a line through the interior point %s of the box %s gives p of shape %s, lam of shape %s' % (P, b, pts.shape, lam.shape))
+        return
+    lo, hi = b[0::2], b[1::2]
+    for k in range(2):
+        onl = on_line(pts[:, k], P, d)
+        onsurf = float(np.min(np.minimum(np.abs(pts[:, k] - lo), np.abs(pts[:, k] - hi))))
+        inside = float(np.max(np.maximum(lo - pts[:, k], pts[:, k] - hi)))
+        pair = md(back[:, k], pts[:, k])
+        ctx.judge('incidence', max(onl, onsurf, inside, pair) <= TOL * m * 10, dict(sig, kind='piercing_point_wrong' if max(onl, onsurf, inside) > TOL * m * 10 else 'point_and_parameter_not_paired'),
+                  lambda: 'intersect_volume(%s), line through %s along %s: p[:,%d] = %s is %.3g off the line, %.3g off the surface, %.3g outside; point(lam[%d]) differs from it by %.3g' % (
+                      b, P, d, k, pts[:, k], onl, onsurf, inside, k, pair))
+    ctx.cell('volume', p.get('form', 'array'), ''.join('+' if x > 0 else '-' if x < 0 else '0' for x in d))
+    ctx.nontrivial('volume', [float('%.9g' % x) for x in np.r_[P, d, b]])
+
+
+RUNNERS = {'volume': run_volume, 'line_history': run_line_history, 'line': run_line, 'transform': run_transform, 'pair': run_pair, 'plane': run_plane, 'pred': run_pred}
 
 
 def REACH():
@@ -481,6 +512,13 @@ def run(ctx):
             D2 = D1 * float(gen.logu(rng, 1e-2, 1e2)) * (1.0 if rng.random() < 0.7 else -1.0)
             P2, extra = point(rng), {}
         drive(RUNNERS, ctx, 'pair', dict(conf=conf, P1=P1, D1=D1, P2=P2, D2=D2, **extra))
+    for _ in range(ctx.scale(400, 6000)):
+        # a box around a point of the line (the point strictly inside), directions of either sign, some along a coordinate axis
+        P = gen.vec(rng, 3, 1e-2, 1e2)
+        d = gen.unit_axis(rng) * gen.logu(rng, 1e-2, 1e2)
+        half = np.array([gen.logu(rng, 1e-1, 1e2) for _ in range(6)])
+        b = np.array([P[0] - half[0], P[0] + half[1], P[1] - half[2], P[1] + half[3], P[2] - half[4], P[2] + half[5]])
+        drive(RUNNERS, ctx, 'volume', dict(P=P, d=d, bounds=b, form=['array', 'list'][rng.integers(2)]))
     for _ in range(ctx.scale(300, 5000)):
         P1, Q1, P2, Q2 = point(rng), point(rng), point(rng), point(rng)
         if min(np.linalg.norm(P1 - Q1), np.linalg.norm(P2 - Q2)) < 1e-2 * mag(P1, Q1, P2, Q2):
